@@ -1553,7 +1553,7 @@ func cacheStress(seed int64) string {
 // ------------------------------------------------------------------ main
 
 func main() {
-	mode := flag.String("mode", "corr", "corr|free|strat|scan|cstress")
+	mode := flag.String("mode", "corr", "corr|free|strat|cnc|scan|cstress")
 	site := flag.String("site", "legacy", "scan: dopen|readdir|gitignore|stat|fopen|extract, or legacy (walkcase.MemFS, every Open slow)")
 	smode := flag.String("scanmode", "tree", "scan: tree|paths")
 	o := hx.Parse()
@@ -1601,6 +1601,8 @@ func main() {
 				}
 				// the case line carries the delivery order that was actually executed (the recorded one plus what had to be delivered after it)
 				emit(l[:strings.LastIndex(l, " ")]+" "+schedStr(sched), reply)
+			case strings.HasPrefix(l, "cnc "):
+				replayCNC(l, out)
 			case strings.HasPrefix(l, "pstrat "):
 				replayStrat(l, out)
 			case strings.HasPrefix(l, "pfree "):
@@ -1636,6 +1638,14 @@ func main() {
 		perDepth = 9
 	}
 	chains := chainUniverses(rand.New(rand.NewSource(o.Seed*7919+1)), perDepth)
+	if *mode == "cnc" {
+		reps := 1
+		if thorough {
+			reps = 3
+		}
+		cncStream(reps, out)
+		return
+	}
 	if *mode == "strat" {
 		reps := 2
 		if thorough {
